@@ -332,20 +332,20 @@ Definition is_ftop (st : list fmode) : bool := match st with [FTop] => true | _ 
 Definition is_lerr {F} (m : lmode F) : bool := match m with LErr => true | _ => false end.
 
 (* ---------- fortran_file_source ---------- *)
-Record fll := { f_lines : list nat; f_cat : cat }.
+Record fll := { f_lines : list nat; f_cat : cat; f_text : list ascii }.   (* a yielded line_info: lines, category, flushed_line *)
 Record floop := { fl_stk : list fmode; fl_vc : list ascii; fl_cur : osl; fl_lines : list nat; fl_out : list fll }.
 
 Definition fflush (cur : osl) (lines : list nat) (out : list fll) : list fll :=
   match category cur with
   | BLANK => out
-  | k => out ++ [{| f_lines := lines; f_cat := k |}]
+  | k => out ++ [{| f_lines := lines; f_cat := k; f_text := parts cur |}]
   end.
 
 Definition f_line (s : floop) (l : cll) : res floop :=
   match c_cat l with
   | CPPDIR =>
       Ok {| fl_stk := fl_stk s; fl_vc := fl_vc s; fl_cur := osl0; fl_lines := [];
-            fl_out := fflush (fl_cur s) (fl_lines s) (fl_out s) ++ [{| f_lines := c_lines l; f_cat := CPPDIR |}] |}
+            fl_out := fflush (fl_cur s) (fl_lines s) (fl_out s) ++ [{| f_lines := c_lines l; f_cat := CPPDIR; f_text := c_text l |}] |}
   | _ =>
       let s1 := fprocess {| fstk := fl_stk s; fbuf := osl0; fvc := fl_vc s; flm := LNorm |} (c_text l) in
       if is_lerr (flm s1) then rt_err else
@@ -388,7 +388,7 @@ Fixpoint group_nodes (code : option (list nat)) (ls : list fll) : list node :=
 Definition parse_fortran (ls : list pline) : res (list node) := rmap (group_nodes None) (f_source ls).
 
 (* the same for a C file scanned with the ordinary cleaner (used by C17_directives_as_C) *)
-Definition fll_of_cll (l : cll) : fll := {| f_lines := c_lines l; f_cat := c_cat l |}.
+Definition fll_of_cll (l : cll) : fll := {| f_lines := c_lines l; f_cat := c_cat l; f_text := c_text l |}.
 
 (* ---------- text -> physical lines, as text-mode iteration does ---------- *)
 Definition is_nl (c : ascii) : bool := (N_of_ascii c =? 10)%N.
